@@ -1,12 +1,48 @@
 # C03 registry entry: see lib/registry.py for the field meanings
-PROP = {'rule': 'placeholder',
- 'assumptions': [],
+PROP = {'rule': 'rapid state machine, one unit per combination of EnableRuntimeQuota x EnableCheckParentQuota (the real Plugin built by New() through '
+         'the framework-extender proxy; a fresh GroupQuotaManager per case via ReplaceQuotas, informers never started: every informer event is '
+         'delivered by the harness). Case = webhook-valid quota tree (1-3 top-level quotas, depth <= 3, every quota of a top-level subtree '
+         'declares the same dimensions out of {cpu, memory, example.com/gpu}, min <= max, children\'s min sum <= parent\'s min; lent / non-lent, '
+         'default or custom shared weight; loaded by ReplaceQuotas or by add events), generated DefaultQuotaGroupMax / SystemQuotaGroupMax '
+         '(shipped "unbounded" value or small), EnableMinQuotaScale, 0-3 nodes; then ~50 steps of: pod add (quota by label, by namespace, by '
+         'namespace annotation, dangling label -> default quota, default/system quota; preemptible or not; 1-2 containers, declared and '
+         'undeclared dimensions), schedule (PreFilter, on Success Reserve, optionally an informer event between the two), finish binding (bind = '
+         'pod update with nodeName, or Unreserve), pod delete (optionally followed by the late Unreserve), quota update (raise max / set min inside '
+         'the webhook window / lower max), capacity change (node add / delete / resize / squeeze). non-trivial = some attempt was rejected on a '
+         'quota, afterwards an assigned pod on that quota\'s path was released (delete or unreserve), and afterwards an attempt on the same quota '
+         'was admitted. distinct = FNV-64 of setup + full history.',
+ 'assumptions': ['quota objects are webhook-valid and min lists the same dimensions as max (a dimension missing from min is not checked by the '
+                 'plugin at all; the built-in default/system quotas have no min, so no non-preemptible bound is asserted for them)',
+                 'the plugin has seen the pod (informer add) before the pod is scheduled; pods that arrive already bound (fail-over, foreign '
+                 'scheduler) are not generated: they bypass admission by design',
+                 'pods have regular containers only (no init containers / overhead / pod-level resources), so the request is the plain sum over '
+                 'containers; all quantities are integral in milli-cpu / whole units',
+                 'quotas are not deleted or re-parented and pods do not change quota (C01 covers those); scheduling cycles are sequential '
+                 '(PreFilter..Reserve of one pod at a time, as in the scheduler), binding outcomes and informer events interleave freely',
+                 'the limit of a quota is what the plugin publishes: GetQuotaSummaries().Runtime after an explicit RefreshRuntime when runtime '
+                 'quota is on (how that figure is computed is C02), the max last written by the harness otherwise; a verdict consistent with the '
+                 'figures read immediately before OR immediately after the PreFilter call is accepted',
+                 'for ancestors the admitted-direction is asserted only in the dimensions the pod requests with a non-zero amount (the plugin '
+                 'masks the ancestor comparison to the pod\'s request keys); any declared dimension may justify a rejection',
+                 'used <= max is asserted for quotas whose max was never lowered: for the quotas pods are admitted against (leaves, default, '
+                 'system) always, for ancestors only when parent checking is on (nothing bounds them otherwise)',
+                 'Go map iteration inside koordinator (runtime redistribution) is not controlled by the seed'],
  'units': [{'name': 'plugin',
             'pkg': 'pkg/scheduler/plugins/elasticquota',
             'files': ['C03/c03_admission_test.go'],
-            'tests': [{'run': 'TestVerifC03Probe', 'quick': 1, 'thorough': 1, 'rapid': False},
-                      {'run': 'TestVerifC03RuntimeOnParentOff', 'quick': 1000, 'thorough': 2000, 'steps': 50},
+            'tests': [{'run': 'TestVerifC03RuntimeOnParentOff', 'quick': 1000, 'thorough': 2000, 'steps': 50},
                       {'run': 'TestVerifC03RuntimeOnParentOn', 'quick': 1000, 'thorough': 2000, 'steps': 50},
                       {'run': 'TestVerifC03RuntimeOffParentOff', 'quick': 1000, 'thorough': 2000, 'steps': 50},
                       {'run': 'TestVerifC03RuntimeOffParentOn', 'quick': 1000, 'thorough': 2000, 'steps': 50}]}],
- 'manifest': {'technique': 'property-based testing (rapid)', 'text': 'placeholder', 'note': 'placeholder'}}
+ 'manifest': {'technique': 'property-based testing (rapid): model-based state machine over the closed loop pod add -> PreFilter -> Reserve -> '
+                           'bind/Unreserve -> delete with quota and capacity changes, per-attempt decision oracle + history invariant',
+              'text': 'Generated-history search over the real ElasticQuota plugin for each of the four runtime-quota x check-parent settings. A '
+                      'reference model tracks which pods hold an assignment; for every PreFilter verdict the inequalities of the statement are '
+                      're-evaluated from the model\'s usage (not the plugin\'s counters) and the published limit: an admitted pod must satisfy '
+                      'used+request <= limit in every declared dimension of its quota, in every ancestor when parent checking is on, and '
+                      'non-preemptible used+request <= min; a rejected pod must violate at least one of them (so leaked or lost usage after '
+                      'Unreserve / delete shows up as an unjustified verdict). After every step no quota whose max was never lowered shows used '
+                      'above max. Exploration, not proof: absence of violations over the sampled histories.',
+              'note': 'webhook-valid trees with one dimension set per top-level subtree; sequential scheduling cycles; no quota delete / '
+                      're-parent; runtime figures are taken from the plugin (C02 checks them); rapid\'s PRNG and shrinker; Go map iteration '
+                      'inside koordinator is not controlled'}}
